@@ -334,6 +334,13 @@ def run(tier):
     bp = pairs[:] if tier == "thorough" else rnd.sample(pairs, 150)
     for i, (a, b) in enumerate(bp):
         add([a, b], "build", "zod" if i % 2 else "none")
+    # visualisation on, then off together with an edit, then on again: the record written while it was off says nothing about the graph files
+    for i, n_ in enumerate(names):
+        if n_ in ("visualize_deps", "comment-noise(control)") or n_.startswith("delete-generated-file"):
+            continue
+        if tier == "quick" and i % 3 != common.seed() % 3:
+            continue
+        add(["visualize_deps", "visualize_deps", n_, "visualize_deps"], "cli" if i % 2 else "build", "zod" if i % 4 < 2 else "none", runmask=[True, False, True, True])
     # edits without an intermediate run
     for (a, b) in (pairs if tier == "thorough" else rnd.sample(pairs, 150)):
         add([a, b], "cli", rnd.choice(["none", "zod"]), runmask=[False, True])
